@@ -1,4 +1,4 @@
-"""C06: IMEX integrators.  Spec modules: IntegratorPrograms, Integrators, IntegratorArgs,
+"""C06: IMEX integrators.  Spec modules: IntegratorPrograms, Integrators, IntegratorArgs, ImexTableaux, RK4Order (BigInt),
 TraceIntegrators.
 
 Integrators.tla interprets the stage program of every integrator over (i) complex rationals
@@ -178,17 +178,22 @@ def _tableau_one(c):
   out = []
   tb = c['tb']
   fr = lambda row: [float(frac(v)) for v in row]
-  tableau = ti.ImExButcherTableau(a_ex=[fr(r) for r in tb['a_ex']], a_im=[fr(r) for r in tb['a_im']],
-                                  b_ex=fr(tb['b_ex']), b_im=fr(tb['b_im']))
   lam, mu = _c(c['lam']), _c(c['mu'])
   exp = _c(c['out'])
   log = []
-  step = ti.imex_runge_kutta(tableau, _linear_eq(lam, mu, log), 1.0)
+  if c['id'] == 'lowstorage':
+    step = ti.low_storage_runge_kutta_crank_nicolson(fr(tb['alphas']), fr(tb['betas']), fr(tb['gammas']),
+                                                     _linear_eq(lam, mu, log), 1.0)
+  else:
+    tableau = ti.ImExButcherTableau(a_ex=[fr(r) for r in tb['a_ex']], a_im=[fr(r) for r in tb['a_im']],
+                                    b_ex=fr(tb['b_ex']), b_im=fr(tb['b_im']))
+    step = ti.imex_runge_kutta(tableau, _linear_eq(lam, mu, log), 1.0)
   got = step({'a': jnp.ones((), jnp.complex128)})
   val = complex(got['a'])
   if not abs(val - exp) <= 2e-13 * max(1.0, abs(exp)):
     out.append({'case': c, 'sig': f'tableau:{c["id"]}:value',
-                'detail': f'n={c["n"]} tableau {tb}: code factor {val!r}, textbook IMEX-RK value {exp!r}'})
+                'detail': f'n={c["n"]} coefficients {tb}: code factor {val!r}, '
+                          f'{"low-storage recurrence" if c["id"] == "lowstorage" else "textbook IMEX-RK"} value {exp!r}'})
   want = [(e['k'], float(frac(e['eta'])) if e['k'] == 'Ginv' else None) for e in c['calls']]
   have = [(k, e if k == 'Ginv' else None) for k, e in log]
   if [k for k, _ in want] != [k for k, _ in have] or any(
@@ -200,7 +205,70 @@ def _tableau_one(c):
 
 replay_tableau = common.per_case(_tableau_one, 'tableau')
 
-REPLAYERS = {'amp': replay_amp, 'stiff': replay_stiff, 'args': replay_args, 'tableau': replay_tableau}
+def _fixed(x):
+  """exported fixed-point number [s, m (little-endian base-10^4 limbs), e] -> Fraction."""
+  m = 0
+  for limb in reversed(x['m']):
+    m = m * 10000 + int(limb)
+  return Fraction(int(x['s']) * m, 10 ** (16 * int(x['e'])))
+
+
+def _rk4_one(c):
+  """Carpenter-Kennedy RK4: the code must hand exactly the spec's coefficients to the low-storage
+  driver, and its explicit amplification factor must be the spec's stability polynomial."""
+  jax, jnp = _jax()
+  import numpy as np
+  from dinosaur import time_integration as ti
+  out = []
+  co = {k: [_fixed(v) for v in c[k]] for k in ('alphas', 'betas', 'gammas')}
+  if c['dom'] == 'tableau':
+    # coefficient capture (how the factory obtains its step function is an implementation detail:
+    # if the generic driver is not called the comparison is skipped and the factor replay decides)
+    seen = {}
+    orig = ti.low_storage_runge_kutta_crank_nicolson
+
+    def spy(alphas, betas, gammas, equation, time_step):
+      seen.update(alphas=list(alphas), betas=list(betas), gammas=list(gammas))
+      return orig(alphas, betas, gammas, equation, time_step)
+    ti.low_storage_runge_kutta_crank_nicolson = spy
+    try:
+      ti.crank_nicolson_rk4(_linear_eq(0.5, -0.5), 0.1)
+    finally:
+      ti.low_storage_runge_kutta_crank_nicolson = orig
+    for k in ('alphas', 'betas', 'gammas'):
+      if k in seen:
+        want = [float(v) for v in co[k]]
+        if [float(v) for v in seen[k]] != want:
+          out.append({'case': c, 'sig': f'rk4:coefficients:{k}', 'drift': True,
+                      'detail': f'crank_nicolson_rk4 passes {k} = {seen[k]} to the low-storage driver, published scheme {want}'})
+    # the whole scheme against the generic driver fed with the spec's coefficients (lam, mu lattice)
+    for lam in (0.0, 0.3, 0.5j, -0.2 + 0.4j):
+      for mu in (0.0, -0.7, 2.0j, -3.0 - 1.0j, -1e3):
+        for dt in (0.125, 1.0):
+          one = jnp.ones((), jnp.complex128)
+          a = complex(ti.crank_nicolson_rk4(_linear_eq(lam, mu), dt)({'a': one})['a'])
+          b = complex(orig([float(v) for v in co['alphas']], [float(v) for v in co['betas']],
+                           [float(v) for v in co['gammas']], _linear_eq(lam, mu), dt)({'a': one})['a'])
+          if not abs(a - b) <= 4e-15 * max(1.0, abs(b)):
+            out.append({'case': c, 'sig': 'amp:rk4:scheme',
+                        'detail': f'lam={lam} mu={mu} dt={dt}: crank_nicolson_rk4 factor {a!r}, low-storage driver with the published coefficients {b!r}'})
+    return out
+  o = c['out']
+  poly = [_fixed(o[k]) for k in sorted(o, key=int)] if isinstance(o, dict) else [_fixed(v) for v in o]
+  for z in (0.5, -0.25, 1.0, 0.3j, -0.4 + 0.7j, 1e-3, -2.0):
+    for dt in (1.0, 0.125):
+      lam = z / dt
+      got = complex(ti.crank_nicolson_rk4(_linear_eq(lam, 0.0), dt)({'a': jnp.ones((), jnp.complex128)})['a'])
+      exp = sum(complex(float(p)) * z ** j for j, p in enumerate(poly))
+      if not abs(got - exp) <= 2e-14 * max(1.0, abs(exp)):
+        out.append({'case': c, 'sig': 'amp:rk4:explicit',
+                    'detail': f'z = dt*lam = {z}: code factor {got!r}, stability polynomial of the published scheme {exp!r}'})
+  return out
+
+
+replay_rk4 = common.per_case(_rk4_one, 'rk4')
+
+REPLAYERS = {'rk4': replay_rk4, 'amp': replay_amp, 'stiff': replay_stiff, 'args': replay_args, 'tableau': replay_tableau}
 
 
 def replay(ctx, kind, cases):
@@ -313,6 +381,22 @@ def run(ctx):
     kind = m['sig'].split(':')[0]
     kind = {'astable': 'amp', 'lengths': 'args'}.get(kind, kind)
     ctx.mismatch(kind, m['case'], m['sig'], m['detail'])
+  # Carpenter-Kennedy RK4 in arbitrary-precision fixed point: full order-4 conditions in TLC, coefficients
+  # and explicit amplification factors replayed; a perturbed coefficient table must be refuted by TLC
+  r4 = ctx.tlc('RK4Order', 'RK4Order.cfg', workers=2)
+  ctx.require_actions(r4, ['Stage'])
+  if len(r4.cases) != 2:
+    raise common.MachineryError('RK4Order: expected two exported behaviours')
+  rp = ctx.tlc('RK4Order', 'RK4Order_perturbed.cfg', workers=2, expect_violation=True, tag='rk4_perturbed', coverage=False)
+  if not rp.violated:
+    raise common.MachineryError('RK4Order: a coefficient perturbed by 1e-9 is not refuted by the order conditions')
+  ctx.notes['rk4_perturbed_coefficient_refuted_by_TLC'] = rp.violated
+  res4 = replay_rk4(r4.cases)
+  for m in res4:
+    ctx.record('rk4', m)
+  res += [m for m in res4 if not m.get('drift')]
+  ctx.replayed += 2
+  ctx.comparisons += 14 + 40 + 3
   # user supplied tableaux: every zero/non-zero pattern of 2- and 3-stage tableaux + named pairs
   rt = ctx.tlc('ImexTableaux', 'ImexTableaux_quick.cfg' if q else 'ImexTableaux.cfg')
   ctx.require_actions(rt, ['ExecF', 'ExecG', 'ExecGinv', 'ExecLin'])
@@ -356,11 +440,13 @@ def run(ctx):
   ctx.sample({'kind': 'trace', 'case': {k: traces[-1][k] for k in ('ig', 'src', 'steps')},
               'events': traces[-1]['ev'][:6]})
   ctx.assumptions += [
-      'Carpenter-Kennedy RK4: 13-digit decimal coefficients are not representable in TLC; its 4th-order '
-      'clause is NOT decided; only its call structure (trace) and stiff non-amplification (replay) are',
+      'Carpenter-Kennedy RK4: order conditions hold to the accuracy of the published 13 digits; decided to 1e-12 in '
+      'decimal fixed point (BigInt.tla) for G = 0; its IMEX behaviour is bound through the generic low-storage driver',
       'order for nonlinear F beyond the order-3 tree conditions and nonlinear F with G != 0 beyond order 2 '
       'are not decided', 'complex |R|^2 <= 1 of the exported exact factors is evaluated with Python integers']
   return ctx.finish(
       rule='TLC: every integrator x domain (complex-rational lattice of dt*lam, dt*mu; power series to degree 4; '
            'tableau extraction); replay: every exported (integrator, lam, mu, dt, alpha) factor on scalar and '
-           'vector states, stiff lattice 1e-3..1e6 x 7 directions x 3 dt, all length tuples <= 5')
+           'vector states, stiff lattice 1e-3..1e6 x 7 directions x 3 dt, all length tuples <= 5; ImexTableaux: every zero pattern of '
+           '2-/3-stage user tableaux (quick: explicit and implicit halves varied separately for 3 stages), 4 named pairs x 9 (lam, mu), '
+           'every 1-3 stage low-storage coefficient list; RK4Order: both interpretations of the Carpenter-Kennedy scheme in fixed point')
